@@ -147,7 +147,7 @@ pub(super) fn trace_anchored(ctx: &AnchorContext, atomic: &[super::pq::ast::SqlT
 }
 
 /// Record an arbitrary event in the trace (no-op unless `split_trace_start` was called on this thread).
-pub(in crate::sql) fn trace_event(event: serde_json::Value) {
+pub(crate) fn trace_event(event: serde_json::Value) {
     SPLIT_TRACE.with(|t| {
         if let Some(trace) = t.borrow_mut().as_mut() {
             trace.push(event);
